@@ -101,6 +101,14 @@ class C07(Prop):
             for i in which:
                 steps.append({"t": "node", "id": i, "health": kind})
             down = which
+            if rng.random() < 0.4:
+                # other operations meet the failure first (they may raise - they are not reads); the reads that
+                # follow must still behave
+                for _ in range(rng.randint(1, 2)):
+                    nm = rng.choice(["flush_all", "flush_all", "delete", "delete_many", "touch"])   # nothing that stores
+                    na = {"flush_all": [], "delete": [E(keys[0])],
+                          "delete_many": [E(keys[:2])], "touch": [E(keys[0])]}[nm]
+                    steps.append({"t": "call", "m": nm, "a": na, "k": {"noreply": False}, "tag": "noise"})
         idle = ck.get("pool_idle_timeout")
         if idle and rng.random() < 0.6:
             # the pooled connection idles out first: its eviction happens inside the next read
@@ -202,7 +210,7 @@ class C07(Prop):
             if rec.method in gen.READS and not tag:
                 if rec.outcome == "raise":
                     out.append(viol("read-raised-despite-ignore_exc", rec, exc=type(rec.exc).__name__,
-                                    msg=str(rec.exc)[:80], fired=[list(f) for f in rec.fired]))
+                                    msg=engine._exc_text(rec.exc)[:80], fired=[list(f) for f in rec.fired]))
                     continue
                 if not rec.fired:
                     continue
@@ -224,7 +232,7 @@ class C07(Prop):
             elif tag == "warm":
                 if rec.outcome == "raise":          # a read under ignore_exc, on servers that are all healthy again
                     out.append(viol("read-raised-despite-ignore_exc", rec, disc="after-recovery",
-                                    exc=type(rec.exc).__name__, msg=str(rec.exc)[:80]))
+                                    exc=type(rec.exc).__name__, msg=engine._exc_text(rec.exc)[:80]))
             elif tag == "usable-set":
                 if rec.outcome != "return" or rec.value is not True:
                     out.append(viol("client-not-usable-afterwards", rec, got=rec.enc_outcome()))
